@@ -529,7 +529,7 @@ Fixpoint obs_conv (sid k : N) (a b : endpoint) (bs : list burst) (racc : list sx
       let o := SL [SB (wire_of rs); SL (map obs_write rs);
                    match outs with
                    | Ok l => s_ok [SL (map obs_pkt l)]
-                   | Err c => s_err c
+                   | Err c => s_err (if c =? 1 then 1 else if c =? 2 then 2 else 98)   (* io.EOF, io.ErrUnexpectedEOF (sentinels), other *)
                    | Panic _ => s_panic
                    end;
                    sx_of_tx (ep_tx a'); sx_of_tx (ep_tx b')] in
